@@ -94,6 +94,12 @@ func (l *ltBroadcast) buildPendBlock(pd *pendBlock) bool {
 		group, _ := tx.GetTxGroup()
 		// 交易组中的其他交易, 依次添加到区块交易列表中
 		for j, gtx := range group.GetTxs() {
+			// the group the pool holds under this short hash does not fit into the block:
+			// it is not the block's transaction, the block cannot be built from the pool
+			if index+j >= len(pd.block.GetTxs()) {
+				buildSuccess = false
+				break
+			}
 			pd.block.GetTxs()[index+j] = gtx
 		}
 	}
